@@ -13,6 +13,7 @@
    A run the specification cannot follow is reported (MISMATCH) and skipped; the next run starts from its `input` record. *)
 EXTENDS O2OPipe, Json, IOUtils, TLC
 Rec == ndJsonDeserialize(IOEnv.TRACE)
+AllNames == TraitNames                     \* the trace specification accepts every documented trait instruction name
 VARIABLES l,     \* next record
           cur,   \* number of the member whose attributes are being read (0: none yet)
           k,     \* member-level instr events consumed for member cur
@@ -26,7 +27,7 @@ NormIn(i) == [dt |-> i.dt, shape |-> i.shape, traits |-> i.traits, tattrs |-> i.
 AuthorReachable(i) == /\ Len(i.traits) <= MaxTraits /\ Len(i.rms) <= MaxMembers /\ Len(i.ms) = Len(i.rms)
                       /\ \A t \in DOMAIN i.traits : i.traits[t].n \in TNames /\ i.traits[t].cp \in {"A", "B"} /\ i.traits[t].err \in {"-", "E1"}
                       /\ \A j \in DOMAIN i.rms : i.rms[j].own \subseteq {"map", "child"} /\ i.rms[j].cats = {} /\ i.ms[j] = MView(i.rms[j].own)
-                      /\ i.tattrs = << ChildParents >> /\ i.dt = "struct" /\ i.shape = "named"
+                      /\ i.tattrs \in {<< ChildParents >>, <<>>} /\ i.dt = "struct" /\ i.shape = "named"
 
 \* the attribute names member m carries, in the order the harness writes them
 Names(m) == (IF m.stop THEN <<"stop_repeat">> ELSE <<>>) \o (IF m.rep THEN <<"repeat">> ELSE <<>>) \o (IF m.skip THEN <<"skip_repeat">> ELSE <<>>)
